@@ -1,14 +1,15 @@
 #!/bin/bash
 # tools/check_seed.sh <seed name e.g. C14_D> [tier] [check ids...] : apply /verif/seeded/<name>/patch.diff to a scratch worktree of /repo and run
 # the given checks (default: the seed's own property) against it. Never touches /repo itself. Prints the verdict lines.
+ROOT=$(cd "$(dirname "$0")/.." && pwd)      # the verification tree this script belongs to (a snapshot of it works the same way)
 S=$1; TIER=${2:-quick}; shift 2 2>/dev/null || shift $#
 P=${S%%_*}
 CHECKS=${*:-$P}
 SR=/tmp/seedrepo_$S
 git -C /repo worktree remove --force $SR 2>/dev/null
 git -C /repo worktree add -q --detach $SR HEAD || exit 2
-( cd $SR && git apply /verif/seeded/$S/patch.diff ) || { echo "patch does not apply"; git -C /repo worktree remove --force $SR; exit 2; }
-cd /verif
+( cd $SR && git apply $ROOT/seeded/$S/patch.diff ) || { echo "patch does not apply"; git -C /repo worktree remove --force $SR; exit 2; }
+cd $ROOT
 for c in $CHECKS; do
   HIERARC_REPO=$SR VERIF_BUILD=/tmp/seedbuild_$S VERIF_EVIDENCE=/tmp/seedbuild_$S/evidence ./check $c $TIER 2>&1 | grep -v "^KNOWN-FINDING" | grep "VIOLATION\|$TIER:\|broken\[" | cut -c1-230 | sed "s/^/[$S vs $c] /" | head -8
 done
